@@ -155,6 +155,12 @@ void SessionWorld::connectClient()
     trace.log(QStringLiteral("app: connectToServer"));
     client->connectToServer(config);
     settle();
+    resolveDns();
+}
+
+void SessionWorld::resolveDns()
+{
+    // DNS timing is not a dimension of any property here: a lookup is answered as soon as the scheduler looks
     if (!pendingDns().isEmpty()) {
         const bool notFound = plan.knob(QStringLiteral("dnsNotFound"), 1);
         const int n = completeDnsLookups(notFound);
@@ -275,6 +281,7 @@ bool SessionWorld::fireNextTimer(qint64 withinMs)
     Dispatcher::advanceTo(due);
     d->fireOneDue(0);
     settle();
+    resolveDns();
     return true;
 }
 
@@ -291,6 +298,7 @@ void SessionWorld::advance(qint64 ms)
         Dispatcher::advanceTo(due);
         d->fireOneDue(0);
         settle();
+        resolveDns();
     }
     Dispatcher::advanceTo(target);
 }
